@@ -230,7 +230,7 @@ fn make_base(prof: &Profile, seed: u64, i: usize, real: Option<&mut dyn Write>) 
     let kind = if prof.name == "entry-sat" && rng.chance(2, 3) { "mixed" } else { kind };
     let scripted = prof.name == "entry-sat" && rng.chance(1, 4);
     // displaced-group construction (gen::displaced_group_script) in the entry profiles
-    let displaced = !scripted && matches!(prof.name, "entry-sat" | "entry-full" | "entry") && rng.chance(1, 8);
+    let displaced = !scripted && (matches!(prof.name, "entry-sat" | "entry-full" | "entry") && rng.chance(1, 8) || prof.name == "broken-entry" && rng.chance(1, 3));
     // HashTable whose last remaining element is displaced (gen::last_displaced_script)
     let lastd = matches!(prof.name, "table" | "table-churn") && lay != "zst" && rng.chance(1, 8);
     // two maps with different bucket counts and equal capacity() (gen::capacity_twin_script)
@@ -263,6 +263,8 @@ fn make_base(prof: &Profile, seed: u64, i: usize, real: Option<&mut dyn Write>) 
     let mut pre = vec![format!("env pred={}", rng.below(1 << 30))];
     match prof.name {
         "broken-hash" => pre.push(format!("env hash=mix:{}", rng.below(1 << 30))),
+        // (the displaced-group construction starts lawful and switches to an unlawful hasher itself)
+        "broken-entry" if displaced => {}
         "broken-entry" | "broken-table" | "broken-set" => {
             if rng.chance(1, 2) {
                 pre.push(format!("env hash=mix:{}", rng.below(1 << 30)))
@@ -300,7 +302,7 @@ fn make_base(prof: &Profile, seed: u64, i: usize, real: Option<&mut dyn Write>) 
         steps = steps.max(g.script.len() + 10);
     }
     if displaced {
-        g.script = gen::displaced_group_script(&mut rng);
+        g.script = gen::displaced_group_script(&mut rng, prof.name == "broken-entry");
         steps = steps.max(g.script.len() + 10);
     }
     if chain {
